@@ -143,6 +143,25 @@ def expected_geometry(H, pos, max_order):
     return [_key(pos[n]) for n in H.nodes], segs, pls
 
 
+def _unrendered(nc, dc):
+    """Why some node marker / dyad line of the returned collections would not be painted (matplotlib skips points whose
+    offset is masked and draws nothing for a non-finite or non-positive size / a non-finite width), or ''."""
+    offs = nc.get_offsets()
+    if np.ma.getmaskarray(offs).any():
+        return f"{int(np.ma.getmaskarray(offs).any(axis=1).sum())} of {len(offs)} node markers are masked (not painted)"
+    sizes = np.asarray(nc.get_sizes(), dtype=float)
+    if sizes.size and (not np.all(np.isfinite(sizes)) or np.any(sizes <= 0)):
+        return f"node marker sizes {sizes.tolist()} are not all finite and positive"
+    lws = np.asarray(nc.get_linewidths(), dtype=float)
+    if lws.size and not np.all(np.isfinite(lws)):
+        return f"node marker line widths {lws.tolist()} are not all finite"
+    if dc is not None and len(dc.get_segments()):
+        dl = np.asarray(dc.get_linewidths(), dtype=float)
+        if dl.size and (not np.all(np.isfinite(dl)) or np.any(dl <= 0)):
+            return f"dyad line widths {dl.tolist()} are not all finite and positive"
+    return ""
+
+
 def check_drawing(H, out, stats, tier):
     import xgi
 
@@ -163,6 +182,13 @@ def check_drawing(H, out, stats, tier):
         ("dicts", {"node_size": {n: 5 + i for i, n in enumerate(nodes)}, "node_fc": {n: float(i) for i, n in enumerate(nodes)}}),
         ("stats", {"node_size": H.nodes.degree, "node_fc": H.nodes.degree, "node_lw": H.nodes.degree}),
     ]
+    # per-ID style values that are all equal (a regular hypergraph drawn with node_size=degree is the everyday case): the
+    # rescaling of sizes / widths must not degenerate
+    styles.append(("constant-lists", {"node_size": [7] * n2, "node_lw": [2] * n2, "node_fc": [1.0] * n2}))
+    styles.append(("constant-dicts", {"node_size": {n: 4 for n in nodes}, "node_lw": {n: 1 for n in nodes}}))
+    styles.append(("constant-arrays", {"node_size": np.full(n2, 3.0), "node_lw": np.full(n2, 0.5)}))
+    if dy:
+        styles.append(("constant-dyad-lists", {"dyad_lw": [2] * len(dy), "dyad_color": [0.5] * len(dy)}))
     if not is_sc:
         styles.append(("edge-stats", {"dyad_lw": H.edges.filterby("order", 1).size if dy else 1.5, "edge_fc": None}))
     mos = [None, 1, 2, 3]
@@ -185,6 +211,9 @@ def check_drawing(H, out, stats, tier):
             off = [_key(p) for p in np.asarray(nc.get_offsets())]
             if off != want_off:
                 out.append(("markers", f"{label}: marker offsets {off} are not the node positions in node order {want_off}"))
+            why = _unrendered(nc, dc)
+            if why:
+                out.append(("markers", f"{label}: {why}"))
             segs = _multiset(frozenset(_key(p) for p in s) for s in dc.get_segments())
             if segs != want_seg:
                 out.append(("lines", f"{label}: {sum(segs.values())} line segments {list(segs)}; expected one per two-node edge "
@@ -203,6 +232,12 @@ def check_drawing(H, out, stats, tier):
         ax, nc = xgi.draw_nodes(H, pos=pos, ax=ax)
         if [_key(p) for p in np.asarray(nc.get_offsets())] != [_key(pos[n]) for n in nodes]:
             out.append(("markers", "draw_nodes: marker offsets are not the node positions in node order"))
+        for kwn, kwv in (("node_size", [6] * len(nodes)), ("node_lw", [1.5] * len(nodes)), ("node_size", H.nodes.degree)):
+            ax, nc2 = xgi.draw_nodes(H, pos=pos, ax=_ax(), **{kwn: kwv})
+            why = _unrendered(nc2, None)
+            if why or len(nc2.get_offsets()) != len(nodes):
+                out.append(("markers", f"draw_nodes({kwn}=<{type(kwv).__name__} of {'equal' if kwn != 'node_size' or isinstance(kwv, list) else 'degree'} values>): "
+                            f"{why or 'wrong marker count'}"))
         if is_sc:
             ax, (dc, ec) = xgi.draw_simplices(H, pos=pos, ax=_ax())
         else:
